@@ -16,11 +16,12 @@ pub mod c13;
 pub mod c15;
 pub mod c16;
 pub mod c17;
+pub mod c18;
 pub mod c19;
 pub mod c20;
 
 pub fn all_ids() -> Vec<&'static str> {
-    vec!["C01", "C02", "C03", "C04", "C05", "C06", "C07", "C08", "C09", "C10", "C11", "C12", "C13", "C15", "C16", "C17", "C19", "C20"]
+    vec!["C01", "C02", "C03", "C04", "C05", "C06", "C07", "C08", "C09", "C10", "C11", "C12", "C13", "C15", "C16", "C17", "C18", "C19", "C20"]
 }
 
 pub fn get(id: &str) -> Option<Property> {
@@ -41,6 +42,7 @@ pub fn get(id: &str) -> Option<Property> {
         "C15" => Some(c15::property()),
         "C16" => Some(c16::property()),
         "C17" => Some(c17::property()),
+        "C18" => Some(c18::property()),
         "C19" => Some(c19::property()),
         "C20" => Some(c20::property()),
         _ => None,
